@@ -79,7 +79,7 @@ var vDefaultCfgProj = map[string]interface{}{
 }
 
 // nick spellings known to the harness (index = rid of a pseudo-client introduced under that spelling)
-var vNickTable = []string{"", "NickServ", "ChanServ", "Bot", "bot", "B[ot]", "b{ot}", "OperServ", "Global", "alice", "Alice", "bob", "carol", "dave"}
+var vNickTable = []string{"", "NickServ", "ChanServ", "Bot", "bot", "B[ot]", "b{ot}", "OperServ", "Global", "alice", "Alice", "bob", "carol", "dave", "b[ot]", "B[OT]"}
 var vRid = map[uint64]int{}
 var vHord []int
 
@@ -846,6 +846,7 @@ func TestVerifIRCEdges(t *testing.T) {
 	for n, ed := range spec.Edges {
 		h := 100000 + n
 		d := &vReplica{srv: ircserver.NewIRCServer(vNet, base), direct: true}
+		d2 := &vReplica{srv: ircserver.NewIRCServer(vNet, base.Add(time.Hour)), direct: true} // C01: must agree byte for byte
 		dead := false
 		for _, e := range spec.Prologues[strconv.Itoa(ed.Pro)] {
 			cp := *e
@@ -854,6 +855,9 @@ func TestVerifIRCEdges(t *testing.T) {
 				dead = true
 				break
 			}
+			cp2 := *e
+			cp2.fill()
+			d2.apply(&cp2)
 		}
 		if dead {
 			continue
@@ -873,6 +877,15 @@ func TestVerifIRCEdges(t *testing.T) {
 			rec.Out = vProjectReplies(msgs)
 			rec.Lines = vCheckLines(msgs)
 			rec.Rids = vCheckRids(msgs, cp.Id)
+			cp2 := *e
+			cp2.fill()
+			if msgs2, p2 := d2.apply(&cp2); p2 != "" {
+				rec.Det = "second replica panicked: " + p2
+			} else if dd := vSameOut(msgs, msgs2); dd != "" {
+				rec.Det = "second replica: " + dd
+			} else if sd := vStateDiff(vCanon(d.srv), vCanon(d2.srv)); sd != "" {
+				rec.Det = "second replica: " + sd
+			}
 			enc.Encode(rec)
 		}
 	}
